@@ -178,7 +178,13 @@ func runC18(r *Report, rng *rand.Rand, thorough bool) {
 		}
 		for _, o := range v.ops {
 			id := v.name + "/" + o.id
-			scenarios = append(scenarios, map[string]any{"id": id, "pkg": v.name, "opts": map[string]any{"short_circuit": -1, "strict_short_circuit": -1}, "req": map[string]any{"method": "GET", "target": "/" + o.id}})
+			// flavours whose per-operation middlewares run inside the wrapper get one: it must find the scopes in the request
+			// context too (that is what an authenticating middleware reads)
+			nmw := 0
+			if v.fw == "chi" || v.fw == "gorilla" || v.fw == "stdhttp" || v.fw == "gin" {
+				nmw = 1
+			}
+			scenarios = append(scenarios, map[string]any{"id": id, "pkg": v.name, "opts": map[string]any{"short_circuit": -1, "strict_short_circuit": -1, "middlewares": nmw}, "req": map[string]any{"method": "GET", "target": "/" + o.id}})
 			metas[id] = meta{v, o}
 		}
 	}
@@ -192,7 +198,18 @@ func runC18(r *Report, rng *rand.Rand, thorough bool) {
 		m := metas[id]
 		res := results[id]
 		replay := map[string]any{"framework": m.v.fw, "schemes": m.v.schemes, "global": m.v.global, "operation": m.op.id, "operation_security": m.op.sec}
-		if res == nil || res.Err != "" || len(res.Trace) != 1 {
+		var hev, mwev *LabEvent
+		if res != nil {
+			for i := range res.Trace {
+				switch res.Trace[i].Kind {
+				case "handler":
+					hev = &res.Trace[i]
+				case "mw":
+					mwev = &res.Trace[i]
+				}
+			}
+		}
+		if res == nil || res.Err != "" || hev == nil || len(res.Trace) > 2 {
 			r.Violate("scenario_error", id, replay)
 			continue
 		}
@@ -202,7 +219,7 @@ func runC18(r *Report, rng *rand.Rand, thorough bool) {
 			keyMap[mm[2]] = mm[1]
 		}
 		var got map[string][]string
-		_ = json.Unmarshal(res.Trace[0].Data["$scopes"], &got)
+		_ = json.Unmarshal(hev.Data["$scopes"], &got)
 		eff := m.v.global
 		if m.op.sec != nil {
 			eff = *m.op.sec
@@ -232,6 +249,22 @@ func runC18(r *Report, rng *rand.Rand, thorough bool) {
 		}
 		if !ok {
 			r.Violate("scopes_published/"+m.v.fw, fmt.Sprintf("%s %s: effective requirements %v, handler saw %v", m.v.fw, m.op.id, eff, got), replay)
+		}
+		if m.v.fw == "chi" || m.v.fw == "gorilla" || m.v.fw == "stdhttp" || m.v.fw == "gin" {
+			r.Dist["seen_by_operation_middleware"]++
+			var mgot map[string][]string
+			if mwev != nil {
+				_ = json.Unmarshal(mwev.Data["$scopes"], &mgot)
+			}
+			mok := mwev != nil && len(mgot) == len(want)
+			for k, v := range want {
+				if g, present := mgot[k]; !present || !eqStrings(g, v) {
+					mok = false
+				}
+			}
+			if !mok {
+				r.Violate("scopes_published_to_middleware/"+m.v.fw, fmt.Sprintf("%s %s: effective requirements %v, the per-operation middleware saw %v (handler saw %v)", m.v.fw, m.op.id, eff, mgot, got), replay)
+			}
 		}
 		// model case
 		var km []string
@@ -401,7 +434,7 @@ func runC18(r *Report, rng *rand.Rand, thorough bool) {
 		}
 	}
 	icases.WriteTo(r)
-	r.Rule = "server: documents with 4 security schemes (plain names and names needing sanitising) x global requirements (absent, empty, one or several alternatives, incl. an empty alternative) x operations that inherit, clear (empty list) or override with AND/OR combinations and scope lists, generated for 7 frameworks; the request context seen by the stub handler must hold exactly the scopes of the schemes of the effective requirements under the generated key constants. client: every provider of pkg/securityprovider on requests with pre-existing query parameters, headers and cookies and varied credentials; non-trivial = non-empty effective requirements / pre-existing request parts"
+	r.Rule = "server: documents with 4 security schemes (plain names and names needing sanitising) x global requirements (absent, empty, one or several alternatives, incl. an empty alternative) x operations that inherit, clear (empty list) or override with AND/OR combinations and scope lists, generated for 7 frameworks; the request context seen by the stub handler (and, in chi / gorilla / std-http / gin, by a per-operation middleware) must hold exactly the scopes of the schemes of the effective requirements under the generated key constants. client: every provider of pkg/securityprovider on requests with pre-existing query parameters, headers and cookies and varied credentials; non-trivial = non-empty effective requirements / pre-existing request parts"
 }
 
 func urlQ(s string) string {
